@@ -181,6 +181,12 @@ def window(rec, pos, sigma):
         return c - 4.0, c - 0.3 * s, 310
     if w == "outside":
         return c + 50.0, c + 60.0, 40
+    if w == "one_bin_partial":
+        return c + 0.5 * s, c + 30.0, 1
+    if w == "tail_in_first_bin":
+        return c + 3.0 * s, c + 103.0 * s, 5
+    if w == "tail_in_last_bin":
+        return c - 103.0 * s, c - 3.0 * s, 5
     return c - 30.0, c + 31.0, 3
 
 
@@ -236,7 +242,9 @@ def replay(rec, ctx):
                 want[i] += R0 * w * gauss_bin(ctr, sigma, a, b)
         scale = R0 / dl
         worst = max(abs(g - w) for g, w in zip(got, want))
-        if worst > 1e-9 * scale:
+        # 1e-9 of R / bin width, plus 1e-8 of the largest bin: the component positions come from two tables of physical
+        # constants (CODATA here, cherab's own in the code), which matters once a bin edge cuts through a line
+        if worst > 1e-9 * scale + 1e-8 * max(want):
             i = max(range(bins), key=lambda j: abs(got[j] - want[j]))
             integral = sum(got) * dl
             bad("bins-differ-from-bin-averaged-profile", f"bin {i}: {got[i]!r} vs {want[i]!r}; integral {integral!r} vs {sum(want) * dl!r}")
@@ -258,7 +266,7 @@ def replay(rec, ctx):
         worst = max(abs(g - w) for g, w in zip(got, want))
         # bins tens of nm wide around a line a few hundredths of a nm wide: the adaptive quadrature's own accuracy (its
         # stopping rule compares successive orders) is what is left, 2e-3 as before; 1e-4 for resolved windows
-        tol = 2e-3 if rec["window"] == "coarse" else 1e-4
+        tol = 2e-3 if dl > 1.0 else 1e-4
         if worst > tol * max(max(want), 1e-300) + 1e-9 * R0 / dl:
             i = max(range(bins), key=lambda j: abs(got[j] - want[j]))
             bad("bins-differ-from-bin-averaged-pseudo-voigt", f"bin {i}: {got[i]!r} vs {want[i]!r}; integral {sum(got) * dl!r} vs {sum(want) * dl!r}")
